@@ -276,5 +276,42 @@ theorem sizeCheck_none {guards : List (Nat × Option Pad)} {t : Table} {p : Pad}
   split_ifs at h with h1 h2
   omega
 
+/-! ### N-d lifting -/
+
+/-- sum over the index box of an array of shape `(shape 0, shape 1, shape 2)` -/
+def boxSum (shape : Nat → Nat) (F : Idx → K) : K :=
+  ∑ i ∈ range (shape 0), ∑ j ∈ range (shape 1), ∑ k ∈ range (shape 2), F (i, j, k)
+
+/-- a 1-d operator applied to every line along axis `a` -/
+def lift (a : Nat) (A : (Nat → K) → Nat → K) (F : Idx → K) : Idx → K :=
+  fun x => A (fun q => F (x.set a q)) (x.get a)
+
+theorem boxSum_add (shape : Nat → Nat) (F G : Idx → K) :
+    boxSum shape (fun x => F x + G x) = boxSum shape F + boxSum shape G := by
+  simp [boxSum, sum_add_distrib]
+
+theorem boxSum_neg (shape : Nat → Nat) (F : Idx → K) :
+    boxSum shape (fun x => - F x) = - boxSum shape F := by
+  simp [boxSum]
+
+/-- Fibre lifting: a 1-d pairing identity along axis `a` lifts to the box. -/
+theorem boxSum_lift_pair (shape : Nat → Nat) (a : Nat) (ha : a < 3) (A B : (Nat → K) → Nat → K)
+    (h1 : ∀ f g : Nat → K, ∑ i ∈ range (shape a), (g i * A f i + f i * B g i) = 0)
+    (F G : Idx → K) :
+    boxSum shape (fun x => G x * lift a A F x + F x * lift a B G x) = 0 := by
+  unfold boxSum lift
+  rcases (show a = 0 ∨ a = 1 ∨ a = 2 by omega) with rfl | rfl | rfl
+  · rw [sum_comm]
+    refine sum_eq_zero (fun j _ => ?_)
+    rw [sum_comm]
+    refine sum_eq_zero (fun k _ => ?_)
+    exact h1 (fun q => F (q, j, k)) (fun q => G (q, j, k))
+  · refine sum_eq_zero (fun i _ => ?_)
+    rw [sum_comm]
+    refine sum_eq_zero (fun k _ => ?_)
+    exact h1 (fun q => F (i, q, k)) (fun q => G (i, q, k))
+  · refine sum_eq_zero (fun i _ => sum_eq_zero (fun j _ => ?_))
+    exact h1 (fun q => F (i, j, q)) (fun q => G (i, j, q))
+
 end closed
 end OdlModel.FiniteDiff
